@@ -237,7 +237,7 @@ DEDUPE = ['tmp = np.ascontiguousarray(p.T)',
 ADD = ['cls = type(self)',
        "if not isinstance(other, cls):\n    raise TypeError('Can only join meshes with same type.')",
        'p = np.hstack((self.p.round(decimals=8), other.p.round(decimals=8)))',
-       't = np.hstack((self.t, other.t + self.p.shape[1]))',
+       't = np.hstack((self.dofs.element_dofs, other.dofs.element_dofs + self.p.shape[1]))',
        'return cls(*self._remove_duplicate_nodes(p, t))']
 CARRY = ("if self.boundaries:\n    boundaries = {}\n    nv = p.shape[1]\n"
          "    keys = mesh.facets[0].astype(np.int64) * nv + mesh.facets[1]\n"
@@ -273,8 +273,8 @@ Definition gen_dedupe_t (p : list key) (t : mat nat) : mat nat :=
   map (map (fun v => nth v ixb 0)) t.                                 (* ixb[t] *)
 (* Mesh.__add__ (coordinates already rounded to 8 decimals) *)
 Definition gen_join_p (p1 p2 : list key) : list key := gen_dedupe_p (p1 ++ p2).                    (* hstack((self.p, other.p)) *)
-Definition gen_join_t (p1 p2 : list key) (t1 t2 : mat nat) : mat nat :=
-  gen_dedupe_t (p1 ++ p2) (hstack2 t1 (map (map (fun v => v + length p1)) t2)).                  (* hstack((self.t, other.t + n1)) *)
+Definition gen_join_t (p1 p2 : list key) (t1 t2 : mat nat) : mat nat :=   (* t1, t2 = ALL node rows: dofs.element_dofs *)
+  gen_dedupe_t (p1 ++ p2) (hstack2 t1 (map (map (fun v => v + length p1)) t2)).                  (* hstack((edofs1, edofs2 + n1)) *)
 (* MeshQuad1.to_meshtri, boundaries: every tagged facet is looked up on its own among the sorted facets of the triangle mesh *)
 Definition gen_carry_boundary (nv : nat) (old_facets new_facets : mat nat) (ixs : list nat) : list nat :=
   let keys := map (fun f => nth 0 f 0 * nv + nth 1 f 0) new_facets in                     (* mesh.facets[0] * nv + mesh.facets[1] *)
@@ -283,11 +283,11 @@ Definition gen_carry_oriented := lookup_oriented.   (* cells = f2t[ori[order], i
 
 
 SIMPLEX = 'skfem/mesh/mesh_simplex.py'
-RDN = ['p, t = self._remove_duplicate_nodes(self.doflocs, self.t)',
+RDN = ['p, t = self._remove_duplicate_nodes(self.doflocs, self.dofs.element_dofs)',
        'm = replace(self, doflocs=p, t=t, _boundaries=None)',
        'if self._boundaries is None:\n    return m',
        'newp = np.zeros(self.doflocs.shape[1], dtype=np.int64)',
-       'newp[self.t] = t',
+       'newp[self.t] = t if m.sort_t else m.t',
        'candidates = m.t2f[:, self.f2t[0]]',
        'match = (self._sort_entities(m.facets)[:, candidates] == self._sort_entities(newp[self.facets])[:, None])'
        '.all(axis=0)',
@@ -361,6 +361,11 @@ def translate_matmul():
     blk = [s for s in body if isinstance(s, ast.If) and t2.src(s.test) == 'isinstance(other, list)']
     blk = t2.only(blk, '__matmul__: list branch')
     srcs = [t2.src(x) for x in blk.body]
+    # higher-order meshes are refused (their extra nodes would not be merged)
+    if srcs[0] != ("if any((m.dofs.element_dofs.shape[0] > m.t.shape[0] for m in [self] + other)):\n    raise NotImplementedError("
+                   "'Joining higher order meshes with shared points is not supported.')"):
+        raise TranslateError('__matmul__: guard for higher-order meshes: ' + srcs[0])
+    srcs = srcs[1:]
     if srcs[0] != 'p = np.hstack((self.p,) + tuple([mesh.p for mesh in other]))' or not isinstance(blk.body[-1], ast.Return):
         raise TranslateError('__matmul__: stacking of the points: ' + srcs[0])
     ret = blk.body[-1].value
@@ -384,6 +389,36 @@ def translate_matmul():
             f'Definition gen_matmul_offset (lens : list nat) (j : nat) : nat := {off}.')
 
 
+TRI = 'skfem/mesh/mesh_tri_1.py'
+LINE = 'skfem/mesh/mesh_line_1.py'
+MUL = ("if isinstance(other, MeshLine1):\n    points = np.zeros((3, 0), dtype=np.float64)\n    wedges = np.zeros((6, 0), dtype=np.int32)\n"
+       "    diff = 0\n    levels, iscell = other._intervals()\n    for i, p in enumerate(levels):\n"
+       "        points = np.hstack((points, np.vstack((self.p, np.array(self.p.shape[1] * [p])))))\n"
+       "        if not iscell[i]:\n            pass\n        else:\n"
+       "            wedges = np.hstack((wedges, np.vstack((self.t + diff, self.t + self.p.shape[1] + diff))))\n"
+       "        diff += self.p.shape[1]\n    return MeshWedge1(points, wedges)")
+INTERVALS = ['x = np.unique(self.p[0, self.t])', 'ends = np.searchsorted(x, np.sort(self.p[0, self.t], axis=0))',
+             'iscell = np.zeros(len(x), dtype=bool)', 'iscell[ends[0, ends[1] == ends[0] + 1]] = True', 'return (x, iscell)']
+
+
+def translate_extrude():
+    """MeshTri1.__mul__ and MeshLine1._intervals (statement-exact)"""
+    mul = t2.find_def(t2.parse(TRI), '__mul__', 'MeshTri1')
+    blk = [s for s in _body(mul) if isinstance(s, ast.If)]
+    blk = t2.only(blk, 'MeshTri1.__mul__: if isinstance(other, MeshLine1)')
+    if t2.src(blk) != MUL:
+        raise TranslateError('MeshTri1.__mul__: ' + t2.src(blk))
+    iv = [t2.src(s) for s in _body(t2.find_def(t2.parse(LINE), '_intervals', 'MeshLine1'))]
+    if iv != INTERVALS:
+        raise TranslateError('MeshLine1._intervals: ' + repr(iv))
+    return '''(* MeshLine1._intervals *)
+Definition gen_line_levels (pz t0 t1 : list nat) : list nat := unique_nat (map (fun v => nth v pz 0) (t0 ++ t1)).   (* np.unique(p[0, t]) *)
+Definition gen_line_iscell := line_iscell.   (* iscell[ends[0, ends[1] == ends[0] + 1]] = True, ends = searchsorted(x, sort(p[0, t], axis=0)) *)
+(* MeshTri1.__mul__: level i = the points shifted by i * p.shape[1]; a layer of wedges only where iscell[i] *)
+Definition gen_extrude_t (nv : nat) (iscell : list bool) (t : mat nat) : mat nat :=
+  extrude_cells_t nv (filter (fun i => nth i iscell false) (seq 0 (length iscell))) t.'''
+
+
 HEADER = '''(* GENERATED by vlib/c18_translate.py from skfem/mesh/mesh.py, mesh_quad_1.py, mesh_hex_1.py, mesh_wedge_1.py,
    refdom.py — do not edit *)
 From Coq Require Import List Arith Bool ZArith.
@@ -399,7 +434,8 @@ def translate():
                      ('mesh.py: _reix, restrict, remove_elements, remove_unused_nodes', translate_restrict),
                      ('mesh.py: _remove_duplicate_nodes, __add__; mesh_quad_1.py: boundary carry-over', translate_join),
                      ('mesh.py: remove_duplicate_nodes, morphed, trace; mesh_simplex.py: oriented', translate_misc),
-                     ('mesh.py: __matmul__', translate_matmul)):
+                     ('mesh.py: __matmul__', translate_matmul),
+                     ('mesh_tri_1.py: __mul__; mesh_line_1.py: _intervals', translate_extrude)):
         try:
             parts.append(fn())
         except TranslateError as e:
